@@ -91,6 +91,10 @@ def programs():
                                                                         N("Op", "b", s="itob", a=[N("Txn", "u", s="TypeEnum")]), N("Txn", "b", s="Note")])), ["b3"])))
     out.append(("Global fields", prog(N("Nary", "u", s="+", a=[N("Global", "u", s="GroupSize"), N("Global", "u", s="Round"), N("Global", "u", s="MinTxnFee")]), [])))
     out.append(("Gtxn[computed].amount", prog(N("GtxnS", "u", s="Amount", a=[argu(0)]), ["u4"])))
+    out.append(("Gtxn[1].application_args[computed]", prog(ret_b(N("GtxnAS", "b", s="ApplicationArgs", a=[argu(0)], i=[1])), ["u4", "b3"])))
+    out.append(("Gtxn[computed].application_args[1]", prog(ret_b(N("GtxnSA", "b", s="ApplicationArgs", a=[argu(0)], i=[1])), ["u4", "b3"])))
+    out.append(("Gtxn[computed].application_args[computed]", prog(ret_b(N("GtxnSAS", "b", s="ApplicationArgs", a=[argu(0), argu(1)])), ["u4", "u4"])))
+    out.append(("Gtxn[computed].accounts[computed]", prog(ret_b(N("GtxnSAS", "b", s="Accounts", a=[argu(0), argu(1)])), ["u4", "u4"])))
     # MaybeValue: both results of ONE evaluation, read in either order
     for order in ("has-first", "value-first"):
         mv = N("MV", "n", s="GGetEx", a=[N("Int", n=[]), N("Bytes", "b", n=[107])], i=[1])
